@@ -86,6 +86,7 @@ type Peer struct {
 	Conn       *websocket.Conn
 	Digest     func(*Frame)
 	code       string // issued by the access API, not yet redeemed
+	APIPath    string // path of the URI the access API returned with the code
 
 	mu         sync.Mutex
 	frames     []Frame
@@ -132,17 +133,27 @@ func (k *Kit) JoinBuf(name uint64, tokenTopic, path string, scopes []string, dig
 // Issue builds the peer's own token (topic, scopes) and asks the access API for a code; the
 // websocket is opened later by Connect, so other requests can reach the access API in between.
 func (k *Kit) Issue(name uint64, tokenTopic string, scopes []string) *Peer {
+	return k.IssuePrefix(name, tokenTopic, scopes, "session")
+}
+
+// IssuePrefix is Issue with the token's connection-type claim ("prefix") chosen by the caller.
+// APIPath then holds the path of the URI the access API returned for it.
+func (k *Kit) IssuePrefix(name uint64, tokenTopic string, scopes []string, prefix string) *Peer {
 	p := &Peer{Name: name, BID: fmt.Sprintf("bk-%d", name), UA: fmt.Sprintf("peer-%d", name), TokenTopic: tokenTopic,
 		Scopes: scopes, readerDone: make(chan struct{})}
 	now := time.Now().Unix()
 	claims := k.Relay.Claims(tokenTopic, p.BID, scopes, now-5, now-5, now+3600)
-	st, _, code := k.Relay.Session(url.PathEscape(tokenTopic), lib.Sign(claims, k.Relay.Secret))
+	claims["prefix"] = prefix
+	st, uri, code := k.Relay.Session(url.PathEscape(tokenTopic), lib.Sign(claims, k.Relay.Secret))
 	if st != 200 || code == "" {
 		p.Refused = "session"
 		close(p.readerDone)
 		return p
 	}
 	p.code = code
+	if u, err := url.Parse(uri); err == nil {
+		p.APIPath = u.Path
+	}
 	return p
 }
 
